@@ -6,6 +6,7 @@ import (
 	"github.com/ethereum/go-ethereum/common"
 	"github.com/holiman/uint256"
 	"math/big"
+	"sort"
 )
 
 type NodeType int
@@ -83,24 +84,32 @@ func NewRootKey() *StorageKey {
 	}
 }
 
-// Children returns the children of the storage key
+// sortedChildIndices returns the index keys of the children in ascending byte order.
+// Go randomises map iteration, and the answers of Children, ChildrenIndices and
+// IndicesOfChanges are consumed by Aspects on every replica: they must not depend on it.
+func (k *StorageKey) sortedChildIndices() []string {
+	indices := make([]string, 0, len(k.childrenIndex))
+	for index := range k.childrenIndex {
+		indices = append(indices, index)
+	}
+	sort.Strings(indices)
+	return indices
+}
+
+// Children returns the children of the storage key, ordered by their index key
 func (k *StorageKey) Children() []*StorageKey {
 	res := make([]*StorageKey, 0, len(k.childrenIndex))
-	if len(k.childrenIndex) > 0 {
-		for _, child := range k.childrenIndex {
-			res = append(res, child)
-		}
+	for _, index := range k.sortedChildIndices() {
+		res = append(res, k.childrenIndex[index])
 	}
 	return res
 }
 
-// ChildrenIndices returns the indices of the children of the storage key
+// ChildrenIndices returns the indices of the children of the storage key in ascending order
 func (k *StorageKey) ChildrenIndices() [][]byte {
 	res := make([][]byte, 0, len(k.childrenIndex))
-	if len(k.childrenIndex) > 0 {
-		for index := range k.childrenIndex {
-			res = append(res, []byte(index))
-		}
+	for _, index := range k.sortedChildIndices() {
+		res = append(res, []byte(index))
 	}
 	return res
 }
@@ -366,14 +375,7 @@ func (s *StateChanges) IndicesOfChanges(account common.Address, stateVarName str
 		return nil
 	}
 
-	res := make([][]byte, 0, len(key.childrenIndex))
-	if len(key.childrenIndex) > 0 {
-		for index := range key.childrenIndex {
-			res = append(res, []byte(index))
-		}
-	}
-
-	return res
+	return key.ChildrenIndices()
 }
 
 // Call records the current contract call information
